@@ -26,13 +26,15 @@ ASSUMPTIONS = [
 desc_st = st.one_of(
     st.text("abcdefg XYZ019.,:;!?&<>'\"()-_", min_size=1, max_size=16),
     st.sampled_from(["caf\xc3\xa9", "na\xefve \xff", "a  b", "<b>bold</b>", " lead", "1 digit first", "x"]),
+    # text that a %-format, str.format or a regular-expression template would expand
+    st.sampled_from(["100%% organic", "Save 50% on everything", "Battery at 5% - charge", "%s", "%(icon)s %(url)s", "{0} {url}", "\\1 \\g<0>", "100%"]),
     # characters some line-splitting routines (str.splitlines) treat as line ends although the line goes on
     st.sampled_from(["vt\x0btab", "form\x0cfeed", "fs\x1cgs\x1drs\x1eus\x1fend", "nel\xc2\x85mid", "ls\xe2\x80\xa8ps\xe2\x80\xa9end", "Minutes\xe2\x80\xa82021"]),
 ).filter(lambda s: s.strip() != "" and "\t" not in s)
 info_st = st.one_of(
     st.text("abcdefg XYZ019.,:;!?&<>'\"()-_", max_size=24),
     st.sampled_from(["", "   ", "  indented text", "trailing   ", "\xff\xfe raw bytes", "Welcome to <gopher> & co", "i looks like a type",
-                     "info\x0bwith\x0cseparators", "info\xe2\x80\xa8line separator", "x\x1cy\x1dz", "nel\xc2\x85here"]),
+                     "50% off", "100%% sure", "%(subtype)s", "{}", "info\x0bwith\x0cseparators", "info\xe2\x80\xa8line separator", "x\x1cy\x1dz", "nel\xc2\x85here"]),
 ).filter(lambda s: not s.strip().startswith("=>") and not s.strip().startswith("=:"))
 seg = st.text("abcdefghijk0123", min_size=1, max_size=5)
 TYPES = list("0145679ghIsMi")
